@@ -952,6 +952,13 @@ func (w *qWorld) opAnswer(op Op) {
 		if w.currentHolder(d.mc) == co || d.mc.pub.ID == "" {
 			return
 		}
+		for _, x := range heldOf(co) {
+			if x.mc.pub.ID == d.mc.pub.ID {
+				// the same message reached this connection in a later incarnation of the channel (a leftover
+				// queue file of a durable channel on an ephemeral topic survives a restart): not stale at all
+				return
+			}
+		}
 		w.sendStale(co, d, op.C)
 		return
 	}
